@@ -365,9 +365,26 @@ def parse_fn_contracts(lines):
 
 
 class Splicer:
-    def __init__(self, sources, log=None):
+    def __init__(self, sources, log=None, degrade=False):
         self.sources = sources  # {crate: Source}
         self.log = log or Log()
+        # degrade=True: a function whose proof annotations (ghost anchors, loop ordinals, closure ordinals) no longer fit the
+        # code is emitted with its contract ASSUMED (#[verifier::external_body]) instead of losing the whole unit; it is
+        # recorded in log.proof_lost and reported as PROOF-LOST, never counted as verified
+        self.degrade = degrade
+        self.log.proof_lost = []
+
+    def render_fn_or_degrade(self, sub, contract, w, **kw):
+        try:
+            return render_fn(sub, contract, self.log, w, **kw)
+        except LostAnchor as ex:
+            if not self.degrade or not contract:
+                raise
+            bare = {'binder': contract.get('binder'), 'clauses': contract.get('clauses', '')}
+            self.log.proof_lost.append({'fn': w, 'why': str(ex)})
+            # decreases clauses are not allowed on external_body functions
+            bare['clauses'] = re.sub(r'\n\s*decreases[^\n]*', '', '\n' + bare['clauses'])
+            return '#[verifier::external_body]\n' + render_fn(sub, bare, self.log, w, **kw)
 
     def src(self, crate):
         if crate not in self.sources:
@@ -500,8 +517,9 @@ class Splicer:
                         if sub.name in externals:
                             out.append('#[verifier::external_body]')
                             self.log.external.append(w)
-                        out.append(render_fn(sub, contracts.get(sub.name), self.log, w))
-                        if sub.name not in externals:
+                        n_lost = len(self.log.proof_lost)
+                        out.append(self.render_fn_or_degrade(sub, contracts.get(sub.name), w))
+                        if sub.name not in externals and len(self.log.proof_lost) == n_lost:
                             self.log.real_fns.append({'crate': crate, 'mod': mod, 'container': norm(header), 'fn': sub.name})
                     elif sub.kind in ('type', 'const'):
                         out.append(drop_path_prefixes(sub.text, self.log, where))
@@ -541,8 +559,10 @@ class Splicer:
                 _, cs, _, _ = parse_fn_contracts(['//@fn %s | %s' % (name, parts[2] if len(parts) > 2 else '')] + block)
                 c = cs[name]
                 where = '%s::%s fn %s' % (crate, mod, name)
-                out.append(render_fn(it, c, self.log, where))
-                self.log.real_fns.append({'crate': crate, 'mod': mod, 'container': '', 'fn': name})
+                n_lost = len(self.log.proof_lost)
+                out.append(self.render_fn_or_degrade(it, c, where))
+                if len(self.log.proof_lost) == n_lost:
+                    self.log.real_fns.append({'crate': crate, 'mod': mod, 'container': '', 'fn': name})
             else:
                 raise ValueError('unknown directive ' + kind)
             i = j + 1
